@@ -1,5 +1,6 @@
 import Driver.Util
 import NutsModel.C17.TokenPolicy
+import NutsModel.C17.Framing
 import NutsModel.Facts.C17
 open Lean Nuts.Drv Nuts.C17 Nuts
 
@@ -32,7 +33,38 @@ def showOutcome : Outcome → String
   | .accept _ => "accept"
   | .reject => "reject"
 
+def hexVal (c : Char) : Nat :=
+  if '0' ≤ c ∧ c ≤ '9' then c.toNat - 48 else if 'a' ≤ c ∧ c ≤ 'f' then c.toNat - 87 else 0
+
+def hexBytes : List Char → List Nat
+  | a :: b :: r => (hexVal a * 16 + hexVal b) :: hexBytes r
+  | _ => []
+
+def hexDigit (n : Nat) : Char := if n < 10 then Char.ofNat (48 + n) else Char.ofNat (87 + n)
+def toHex (b : List Nat) : String := String.ofList (b.flatMap (fun x => [hexDigit (x / 16), hexDigit (x % 16)]))
+
+/-- the deepening-round ops on BYTES (hex): base64 decode, canonical, isJWSSerialization, ParseTransaction's first exits; and
+    crypto.SignatureAlgorithm on a key kind -/
+def stepBytes (j : Json) : Option (List String) :=
+  let bytes := hexBytes (jStr j "hex").toList
+  match jStr j "op" with
+  | "b64" =>
+    let d := match Framing.decode bytes with | none => "err" | some x => "ok:" ++ toHex x
+    some [d ++ " canonical=" ++ toString (Framing.canonical bytes)]
+  | "framing" => some [toString (Framing.isJWSSerialization bytes)]
+  | "framingtx" =>
+    some [match Framing.parseTxFraming Facts.C17.dagStrictFraming (jBool j "parses") bytes with
+      | .errParse => "err:parse" | .errFraming => "err:framing" | .pass => "pass"]
+  | "sigalg" =>
+    let kind : Framing.KeyKind := match jStr j "kind" with
+      | "nil" => .nil | "rsa" => .rsa | "ecdsa" => .ecdsa (jNat j "bits") | "ed25519" => .ed25519 | _ => .other
+    some [(Framing.signatureAlgorithm Facts.C17.ecAlgBitsTable Facts.C17.sigAlgRsa Facts.C17.sigAlgEd kind).getD "error"]
+  | _ => none
+
 def step (st : Unit) (j : Json) : Unit × List String :=
+  match stepBytes j with
+  | some r => (st, r)
+  | none =>
   if jStr j "op" == "algfits" then
     let sh := jObj j "shape"
     let shape : KeyShape := match jStr sh "kind" with
